@@ -556,7 +556,8 @@ func CompareTokenTree(j JV, v V, path string) error {
 			return errf("%s: expected float %s, text has %s", path, fmtG(v.Float()), j.describe())
 		}
 		f, err := strconv.ParseFloat(j.Raw, 64)
-		if err != nil || f != v.Float() {
+		if err != nil || math.Float64bits(f) != v.F {
+			// "the identical float64": bit for bit, so the sign of zero counts
 			return errf("%s: float %s written as %q (reads back as %v, err %v)", path, fmtG(v.Float()), j.Raw, f, err)
 		}
 	case KList:
